@@ -5,12 +5,6 @@ Require Import V.Lib.RunCases V.C38.Spec V.C38.Proofs V.C38.Rows V.C40.Proofs
                V.C37.Model V.C37.Proofs V.C37.Clauses V.C37.Tie.
 Open Scope N_scope.
 
-Definition eid_of (g : graph) (e : edge) : option eid :=
-  match path_of (rows g) (e_src e), path_of (rows g) (e_dst e) with
-  | Some s, Some d => Some (mkEid s d (e_sa e) (e_da e) (e_idx e))
-  | _, _ => None
-  end.
-
 (* the projection of one connection whose endpoints exist *)
 Definition odf (o : option path) : path := match o with Some p => p | None => [] end.
 Definition pe1 (rs : list orow) (e : edge) : pedge :=
@@ -142,3 +136,19 @@ Proof.
       by (apply (eid_is_pe1 g e0 ti _ ti Hi); reflexivity).
     congruence.
 Qed.
+
+(* the same with the executable well-formedness test of Check.v (code 2) *)
+Lemma clauses_set_obj g t c v g' tp :
+  wf_b g = true -> spec_set_obj g t c v = Some g' -> path_of (rows g) t = Some tp ->
+  cl_set_obj (prows g) (pedges g) (prows g') (pedges g') tp c v = [].
+Proof. intros W. apply tie_set_obj. apply wf_b_wf. exact W. Qed.
+
+Lemma clauses_set_edge g l c v g' e0 ti :
+  wf_b g = true -> spec_set_edge g l c v = Some g' -> find_edge l (g_edges g) = Some e0 -> eid_of g e0 = Some ti ->
+  cl_set_edge (prows g) (pedges g) (prows g') (pedges g') ti c v = [].
+Proof. intros W. apply tie_set_edge. apply wf_b_wf. exact W. Qed.
+
+Lemma clauses_create_obj g key unq ret g' :
+  wf_b g = true -> spec_create_object g key unq = Some (ret, g') ->
+  cl_create_obj (prows g) (pedges g) (prows g') (pedges g') ret = [].
+Proof. intros W. apply tie_create_obj. apply wf_b_wf. exact W. Qed.
